@@ -229,6 +229,14 @@ def case_b(case):
             ev = lambda cs: "".join(chr(c if isinstance(c, int) else m.eval(c, model_completion=True).as_long()) for c in cs)
             res["violations"].append({"kind": "wrong-binding", "key": ev(key), "orig": ev(og) if orig_kind == "sym" else (ev(key) if orig_kind == "same" else orig_kind),
                                       "bound": ev(got), "line": ev(sk.chars[f.ident[0] - 8 if f.ident[0] > 8 else 0:f.type[1] + 30])})
+        # (round n) TypeScript: a key that is not an identifier must be carried as a *quoted* property
+        if lang == "typescript" and f.key is None and sk.text[f.ident[0] - 1:f.ident[0]] != '"':   # (the variant-body extractor reports a quoted key as ident)
+            it = sk.terms(f.ident)
+            dash = [c == 45 for c in it if not isinstance(c, int)] + ([z3.BoolVal(True)] if any(isinstance(c, int) and c == 45 for c in it) else [])
+            m2 = I.sat_model(z3.Or(dash)) if dash else None
+            if m2 is not None:
+                ev2 = lambda cs: "".join(chr(c if isinstance(c, int) else m2.eval(c, model_completion=True).as_long()) for c in cs)
+                res["violations"].append({"kind": "unquoted-non-identifier", "key": ev2(key), "orig": ev2(og) if orig_kind == "sym" else (ev2(key) if orig_kind == "same" else orig_kind), "bound": ev2(it)})
         # the neighbours must be untouched
         n1 = "".join(chr(c) if isinstance(c, int) else "?" for c in sk.terms(fields[0].wire_key()))
         n3 = "".join(chr(c) if isinstance(c, int) else "?" for c in sk.terms(fields[2].wire_key()))
@@ -354,7 +362,7 @@ def run(rep, tier, only=None):
                 key = tuple(sorted((a, str(b)) for a, b in sig.items()))
                 if key in reported:
                     continue
-                if v["kind"] not in ("wrong-binding", "panic"):
+                if v["kind"] not in ("wrong-binding", "panic", "unquoted-non-identifier"):
                     rep.inconc("B %s: %s" % (case, v)); continue
                 src = render_b(case, v)
                 cfg = dict(bharness.DEFAULT_CFG.get(case[0], {}))
@@ -378,6 +386,15 @@ def run(rep, tier, only=None):
                 if not fields and case[0] == "typescript":
                     from checks.c04 import ts_variant_fields
                     fields = ts_variant_fields(sk)
+                if v["kind"] == "unquoted-non-identifier":
+                    import re as _re
+                    if "-" in v["key"] and _re.search(r"^\s*%s\??: " % _re.escape(v["key"]), out, _re.M) and ('"%s"' % v["key"]) not in out:
+                        reported.add(key)
+                        rep.violation(sig, "typescript writes the key %r as an unquoted property: %s" % (v["key"], [l.strip() for l in out.split("\n") if v["key"] in l][:1]),
+                                      {"source": src, "lang": case[0], "config": cfg, "half": "backend", "key": v["key"], "unquoted": True})
+                    else:
+                        rep.inconc("engine mismatch (unquoted key) %s: %s; real text %r" % (case, v, out[:300]))
+                    continue
                 if fields and len(fields) == 3 and sk.str(fields[1].wire_key()) != v["key"]:
                     reported.add(key)
                     rep.violation(sig, "%s binds the field `%s` (serde key %r) to %r: %s" % (case[0], v["orig"], v["key"], sk.str(fields[1].wire_key()), (fields[1].raw or "").strip()),
